@@ -16,7 +16,7 @@
    stage's input / output; [offin e]/[offout e] = the beat on offer in that cycle; [holdW w] = on wire w a
    beat that is valid and not accepted is offered unchanged in the next cycle; [prefix]. *)
 From Coq Require Import List NArith Bool Arith Lia.
-From Gatery Require Import StreamDefs StreamSpec StreamCompose StreamStages StreamHold StreamPacket StreamChain StreamLive StreamRefute StreamTop.
+From Gatery Require Import StreamDefs StreamSpec StreamCompose StreamStages StreamHold StreamPacket StreamMeta StreamChain StreamLive StreamRefute StreamTop.
 Import ListNotations.
 
 (* ---------------------------------------------------------------- stage_transfers, register stages *)
@@ -226,6 +226,57 @@ Example packet_chain_example :
   let d := chainOf [DRegDown; matchD 1 2; DRegReady; matchD 2 1; DRegDecouple] in
   wfd d /\ gives_hold d = true /\ capd d = 6.
 Proof. cbv zeta. split; [simpl; intuition lia|]. split; reflexivity. Qed.
+
+
+(* ---------------------------------------------------------------- per-byte meta signals: ByteEnable *)
+(* On a stream with scl::ByteEnable a model digit is the pair (byte, its enable bit) encoded as
+   sym byte en = byte + 256 * en (the Error bit rides in the meta word the same way); the correspondence
+   run checks that the real stages treat payload and enables in lockstep.  [xmap f] applies f to every
+   digit of a transferred record; with f = sym_en it is the byte-enable word of the beat, with
+   f = sym_byte its payload.  The theorems say: the byte enables (any per-digit view) of the narrow beats
+   are the slices, in order, of the byte enables of the wide beats -- narrow beat k carries slice k --
+   and symmetrically for packing. *)
+Theorem byteEnable_encoding : forall b e, (b < 256)%N -> sym_byte (sym b e) = b /\ sym_en (sym b e) = e.
+Proof. exact byteEnable_encoding_l. Qed.
+Print Assumptions byteEnable_encoding.
+
+Theorem unpack_digit_view : forall f r l, unpack r (map (xmap f) l) = map (xmap f) (unpack r l).
+Proof. exact unpack_digit_view_l. Qed.
+Print Assumptions unpack_digit_view.
+
+Theorem pack_digit_view : forall f r l, pack r (map (xmap f) l) = map (xmap f) (pack r l).
+Proof. exact pack_digit_view_l. Qed.
+Print Assumptions pack_digit_view.
+
+Theorem reduceWidth_byteEnable_slices : forall f r cs, 1 <= r -> holdW (inW (trace (reduceS r) cs)) ->
+  exists pend, map (xmap f) (Tout (trace (reduceS r) cs)) = unpack r (map (xmap f) (Tin (trace (reduceS r) cs))) ++ pend /\ length pend < r.
+Proof. exact reduceWidth_digit_view_l. Qed.
+Print Assumptions reduceWidth_byteEnable_slices.
+
+Theorem widthReduce_byteEnable_slices : forall f r cs, 1 <= r -> holdW (inW (trace (preduceS r) cs)) ->
+  exists pend, map (xmap f) (Tout (trace (preduceS r) cs)) = unpack r (map (xmap f) (Tin (trace (preduceS r) cs))) ++ pend /\ length pend < r.
+Proof. exact widthReduce_digit_view_l. Qed.
+Print Assumptions widthReduce_byteEnable_slices.
+
+Theorem extendWidth_byteEnable_packs : forall f r cs, 1 <= r ->
+  map (xmap f) (Tout (trace (extendS r) cs)) = pack r (map (xmap f) (Tin (trace (extendS r) cs))).
+Proof. exact extendWidth_digit_view_l. Qed.
+Print Assumptions extendWidth_byteEnable_packs.
+
+Example byteEnable_64_to_16 :
+  (* 64 bit -> 16 bit (ratio 4, 2-byte narrow beats); byte enables of the wide beat, byte 0 first: 10 01 11 00 *)
+  let ens := [1; 0; 0; 1; 1; 1; 0; 0]%N in let bytes := [11; 12; 13; 14; 15; 16; 17; 18]%N in
+  let b := mkBeat true (map (fun p => sym (fst p) (snd p)) (combine bytes ens)) true 2%N in
+  let cs := repeat (mkCyc [] b true) 4 in
+  holdW (inW (trace (reduceS 4) cs)) /\
+  map (fun x => map sym_en (xdata x)) (Tout (trace (reduceS 4) cs)) = [[1; 0]; [0; 1]; [1; 1]; [0; 0]]%N /\
+  map (fun x => map sym_byte (xdata x)) (Tout (trace (reduceS 4) cs)) = [[11; 12]; [13; 14]; [15; 16]; [17; 18]]%N.
+Proof.
+  cbv zeta. split; [|split].
+  - vm_compute. repeat split; intros; try reflexivity; try discriminate; try exact I.
+  - vm_compute; reflexivity.
+  - vm_compute; reflexivity.
+Qed.
 
 (* ---------------------------------------------------------------- compose_transfers *)
 (* Safe: delivered ++ offered-out is a prefix of f (accepted ++ offered-in); Lag: at most cap images
